@@ -146,6 +146,11 @@ class ZemaxFileReader:
 
             if self.data['aperture']:
                 success = True
+                # the last SURF block (the image surface) is complete now
+                if self._current_surf >= 0:
+                    self.data['surfaces'][self._current_surf] = \
+                        self._current_surf_data
+                break
             else:
                 continue
 
